@@ -11,7 +11,7 @@ From LzVerif Require Import Base.Bytes Codec.Store Codec.Range Codec.ProbProofs 
   Codec.LzWindow Codec.LzmaDec Codec.LzmaAbs Codec.LzWindowProofs Codec.ProgProofs Codec.LzmaAbsProofs
   Codec.RangeNoWrapProofs Codec.LzmaReadProofs Codec.LzmaTotalProofs Codec.Lzma2Dec Codec.Lzma2SpecProofs
   Codec.Lzma2WindowProofs Codec.Lzma2ReadAuxProofs Codec.Lzma2LoopProofs Codec.Lzma2Loop0Proofs
-  Codec.Lzma2ReadProofs Codec.TruncProofs Codec.TruncLzma2Proofs Codec.Total2Proofs
+  Codec.Lzma2ReadProofs Codec.Lzma1ReadProofs Codec.TruncProofs Codec.TruncLzma2Proofs Codec.Total2Proofs
   Mt.Units Mt.UnitsProofs Mt.Lzma2Units Mt.Lzma2UnitsAbsProofs.
 Ltac Zify.zify_post_hook ::= Z.div_mod_to_equations.
 Local Open Scope Z_scope.
@@ -38,6 +38,163 @@ Proof. intros H. unfold zlen. rewrite skipn_length. lia. Qed.
 
 Lemma zlen_firstn {A} n (l : list A) : (n <= length l)%nat -> zlen (firstn n l) = Z.of_nat n.
 Proof. intros H. unfold zlen. rewrite firstn_length_le by exact H. reflexivity. Qed.
+
+
+Lemma take_n_cases n (l : list Z) :
+  ((length l < n)%nat /\ take_n n l = None) \/
+  ((n <= length l)%nat /\ take_n n l = Some (firstn n l, skipn n l)).
+Proof.
+  unfold take_n. destruct (Nat.leb_spec n (length l)) as [H|H]; [right | left]; split; auto.
+Qed.
+
+(* rc.prepare on a source that is shorter than the announced payload fails *)
+Lemma rdec_prepare_short input len : (length input < Z.to_nat len)%nat -> exists e, rdec_prepare input len = Err e.
+Proof.
+  intros H. unfold rdec_prepare. destruct (Z.ltb_spec len 5); [eexists; reflexivity|].
+  destruct input as [|b0 rest0]; [eexists; reflexivity|]. destruct (negb (b0 =? 0)); [eexists; reflexivity|].
+  destruct rest0 as [|b1 [|b2 [|b3 [|b4 rest]]]]; try (eexists; reflexivity).
+  cbn [length] in H. destruct (Nat.ltb_spec (length rest) (Z.to_nat (len - 5))) as [_|X]; [eexists; reflexivity | lia].
+Qed.
+
+(* rc.prepare on exactly the payload, and on the payload followed by more of the source *)
+Lemma rdec_prepare_exact payload rest len : length payload = Z.to_nat len ->
+  match rdec_prepare payload len with
+  | Ok (rc, r) => r = [] /\ rng_ok rc /\ rdec_prepare (payload ++ rest) len = Ok (rc, rest)
+  | Err e => rdec_prepare (payload ++ rest) len = Err e
+  | _ => False
+  end.
+Proof.
+  intros H. unfold rdec_prepare. destruct (Z.ltb_spec len 5) as [|H5]; [reflexivity|].
+  destruct payload as [|b0 [|b1 [|b2 [|b3 [|b4 r]]]]]; cbn [length] in H; try lia.
+  cbn [app]. destruct (negb (b0 =? 0)); [reflexivity|].
+  assert (Hr : length r = Z.to_nat (len - 5)) by lia.
+  rewrite app_length.
+  destruct (Nat.ltb_spec (length r) (Z.to_nat (len - 5))) as [X|_]; [lia|].
+  destruct (Nat.ltb_spec (length r + length rest) (Z.to_nat (len - 5))) as [X|_]; [lia|].
+  rewrite <- Hr. rewrite firstn_all, skipn_all.
+  rewrite firstn_app_exact by reflexivity. rewrite skipn_app_exact by reflexivity.
+  split; [reflexivity|]. split; [unfold rng_ok; cbn [rd_range]; lia | reflexivity].
+Qed.
+
+(* ---- decode_chunk_header in parts ---- *)
+Definition win_part (s : lzma2) (control : Z) : outcome (lzwin * bool * bool) :=
+  if (224 <=? control) || (control =? 1) then
+    do w <- lzwin_reset (m_win s); Ok (w, true, false)
+  else if m_need_dict_reset s then Err E_INVALID_INPUT
+  else Ok (m_win s, m_need_props s, m_need_dict_reset s).
+
+Definition lz_tail (s : lzma2) (w1 : lzwin) (usize csize : Z) (need_dict_reset1 : bool)
+  (pc : option coder * probs * bool * list Z) : outcome lzma2 :=
+  let '(coder1, probs1, need_props2, in4) := pc in
+  do rp <- rdec_prepare in4 csize;
+  let '(rc1, in5) := rp in
+  Ok (mkLzma2 in5 w1 rc1 probs1 coder1 usize true need_dict_reset1 need_props2 false (m_error s)).
+
+Definition lz_part (s : lzma2) (control : Z) (in1 : list Z) (w1 : lzwin) (need_props1 need_dict_reset1 : bool)
+  : outcome lzma2 :=
+  do u <- read_u16_be in1;
+  let '(ulow, in2) := u in
+  let usize := Z.shiftl (Z.land control 31) 16 + ulow + 1 in
+  do cs <- read_u16_be in2;
+  let '(clow, in3) := cs in
+  let csize := clow + 1 in
+  do pc <-
+    (if 192 <=? control then
+       do cp <- lzma2_decode_props in3;
+       let '(c, in4) := cp in Ok (Some c, PLeaf, false, in4)
+     else if need_props1 then Err E_INVALID_INPUT
+     else if 160 <=? control then
+       Ok (match m_coder s with Some c => Some (coder_reset c) | None => None end,
+           match m_coder s with Some _ => PLeaf | None => m_probs s end, need_props1, in3)
+     else Ok (m_coder s, m_probs s, need_props1, in3));
+  lz_tail s w1 usize csize need_dict_reset1 pc.
+
+Definition unc_part (s : lzma2) (in1 : list Z) (w1 : lzwin) (need_props1 need_dict_reset1 : bool) : outcome lzma2 :=
+  do u <- read_u16_be in1;
+  let '(ulow, in2) := u in
+  Ok (mkLzma2 in2 w1 (m_rc s) (m_probs s) (m_coder s) (ulow + 1) false need_dict_reset1 need_props1 false (m_error s)).
+
+Lemma chunk_header_eq s :
+  lzma2_chunk_header s =
+  do cr <- read_u8 (m_in s);
+  let '(control, in1) := cr in
+  if control =? 0 then
+    Ok (mkLzma2 in1 (m_win s) (m_rc s) (m_probs s) (m_coder s) (m_uncompressed_size s) (m_is_lzma_chunk s)
+                (m_need_dict_reset s) (m_need_props s) true (m_error s))
+  else
+  do st1 <- win_part s control;
+  let '(w1, need_props1, need_dict_reset1) := st1 in
+  if 128 <=? control then lz_part s control in1 w1 need_props1 need_dict_reset1
+  else if 2 <? control then Err E_INVALID_INPUT
+  else unc_part s in1 w1 need_props1 need_dict_reset1.
+Proof.
+  unfold lzma2_chunk_header, win_part, lz_part, unc_part, lz_tail.
+  destruct (read_u8 (m_in s)) as [[control in1]|e|e|]; reflexivity.
+Qed.
+
+(* ---- adecode on an explicit header ---- *)
+Lemma adecode_nil ds d : adecode ds d [] = None.
+Proof. rewrite adecode_unfold. reflexivity. Qed.
+
+Lemma adecode_term ds d rest : adecode ds d (0 :: rest) = Some ([], rest).
+Proof. rewrite adecode_unfold. reflexivity. Qed.
+
+Lemma adecode_lzma ds d c u1 u2 c1 c2 in3 : (c =? 0) = false -> (128 <=? c) = true ->
+  adecode ds d (c :: u1 :: u2 :: c1 :: c2 :: in3) =
+  match (if 192 <=? c then match in3 with [] => None | pr :: in4 => Some ([pr], in4) end else Some ([], in3)) with
+  | None => None
+  | Some (prl, in4) =>
+      match take_n (Z.to_nat (c1 * 256 + c2 + 1)) in4 with
+      | None => None
+      | Some (payload, rest) =>
+          match astep ds d (mkChunk c (c :: u1 :: u2 :: c1 :: c2 :: prl ++ payload)) with
+          | Some (d1, o1) => oapp o1 (adecode ds d1 rest)
+          | None => None
+          end
+      end
+  end.
+Proof.
+  intros H0 H128. rewrite adecode_unfold. unfold parse_chunk. rewrite H0, H128. unfold be16.
+  destruct (192 <=? c).
+  - destruct in3 as [|pr in4]; [reflexivity|].
+    cbn [take_n length Nat.leb firstn skipn].
+    destruct (take_n (Z.to_nat (c1 * 256 + c2 + 1)) in4) as [[payload rest]|]; reflexivity.
+  - cbn [take_n length Nat.leb firstn skipn].
+    destruct (take_n (Z.to_nat (c1 * 256 + c2 + 1)) in3) as [[payload rest]|]; reflexivity.
+Qed.
+
+Lemma adecode_unc ds d c s0 s1 in2 : (c =? 0) = false -> (128 <=? c) = false -> ((c =? 1) || (c =? 2)) = true ->
+  adecode ds d (c :: s0 :: s1 :: in2) =
+  match take_n (Z.to_nat (s0 * 256 + s1 + 1)) in2 with
+  | None => None
+  | Some (payload, rest) =>
+      match astep ds d (mkChunk c (c :: s0 :: s1 :: payload)) with
+      | Some (d1, o1) => oapp o1 (adecode ds d1 rest)
+      | None => None
+      end
+  end.
+Proof.
+  intros H0 H128 H12. rewrite adecode_unfold. unfold parse_chunk. rewrite H0, H128, H12. unfold be16.
+  destruct (take_n (Z.to_nat (s0 * 256 + s1 + 1)) in2) as [[payload rest]|]; reflexivity.
+Qed.
+
+Lemma adecode_short_lzma ds d c in1 : (c =? 0) = false -> (128 <=? c) = true -> (length in1 < 4)%nat ->
+  adecode ds d (c :: in1) = None.
+Proof.
+  intros H0 H128 Hl. rewrite adecode_unfold. unfold parse_chunk. rewrite H0, H128.
+  destruct in1 as [|a [|b [|e [|f r]]]]; cbn [length] in Hl; try lia; destruct (192 <=? c); reflexivity.
+Qed.
+
+Lemma adecode_short_unc ds d c in1 : (c =? 0) = false -> (128 <=? c) = false -> (length in1 < 2)%nat ->
+  adecode ds d (c :: in1) = None.
+Proof.
+  intros H0 H128 Hl. rewrite adecode_unfold. unfold parse_chunk. rewrite H0, H128.
+  destruct in1 as [|a [|b r]]; cbn [length] in Hl; try lia; destruct ((c =? 1) || (c =? 2)); reflexivity.
+Qed.
+
+Lemma adecode_bad_ctrl ds d c in1 : (c =? 0) = false -> (128 <=? c) = false -> ((c =? 1) || (c =? 2)) = false ->
+  adecode ds d (c :: in1) = None.
+Proof. intros H0 H128 H12. rewrite adecode_unfold. unfold parse_chunk. rewrite H0, H128, H12. reflexivity. Qed.
 
 Section Sim.
   Variable ds : Z.                 (* the reader's buffer size *)
@@ -301,6 +458,252 @@ Section Sim.
           by (destruct s1 as [c1 h1 dd pl1 pd1]; cbn [a_coder a_hist a_dict a_pend_len a_pend_dist] in *; subst dd; rewrite Hwl1, Hsz; reflexivity).
         destruct (alz_fin (Z.to_nat (u - b)) (run_rc (aproduce (Z.to_nat (u - b)) s1) d1 t1)) as [[d2 o2]|]; [|reflexivity].
         cbn [out_pre]. rewrite oapp_app, Hout'. reflexivity.
+  Qed.
+
+  (* ---- chunk headers ------------------------------------------------------------------------- *)
+  Lemma astep_lzma d c u1 u2 c1 c2 b1 : (128 <=? c) = true ->
+    astep ds d (mkChunk c (c :: u1 :: u2 :: c1 :: c2 :: b1)) =
+    if negb ((224 <=? c) || (c =? 1)) && d_need_dict_reset d then None else
+    match (if 192 <=? c then
+             match lzma2_decode_props b1 with
+             | Ok (cd, b2) => Some (cd, PLeaf, b2)
+             | _ => None
+             end
+           else if (if (224 <=? c) || (c =? 1) then true else d_need_props d) then None
+           else match d_coder d with
+                | None => None
+                | Some cd => if 160 <=? c then Some (coder_reset cd, PLeaf, b1) else Some (cd, d_probs d, b1)
+                end) with
+    | None => None
+    | Some (cd, t, payload) =>
+        match rdec_prepare payload (c1 * 256 + c2 + 1) with
+        | Ok (rc, []) => alz ds (if (224 <=? c) || (c =? 1) then [] else d_hist d) cd rc t
+                             (Z.shiftl (Z.land c 31) 16 + (u1 * 256 + u2) + 1) 0 0
+        | _ => None
+        end
+    end.
+  Proof. intros H. unfold astep. cbn [c_bytes c_ctrl]. rewrite Z.eqb_refl, H. reflexivity. Qed.
+
+  Lemma hdr_lz_tail st s d c hd cd t in4 w1 hist1 usize csize o :
+    m_end_reached s = false -> m_error s = None -> bytes_ok in4 = true -> 0 < usize ->
+    win_ok st w1 hist1 -> w_pending_len w1 = 0 -> coder_ok cd (w_full w1) -> probs_ok t ->
+    (forall payload, astep ds d (mkChunk c (hd ++ payload)) =
+        match rdec_prepare payload csize with
+        | Ok (rc, []) => alz ds hist1 cd rc t usize 0 0
+        | _ => None
+        end) ->
+    o = match take_n (Z.to_nat csize) in4 with
+        | None => None
+        | Some (payload, rest) =>
+            match astep ds d (mkChunk c (hd ++ payload)) with
+            | Some (d1, o1) => oapp o1 (adecode ds d1 rest)
+            | None => None
+            end
+        end ->
+    match lz_tail s w1 usize csize false (Some cd, t, false, in4) with
+    | Ok s1 => live s1 /\ in_lzma st s1 o
+    | _ => o = None
+    end.
+  Proof.
+    intros Hend Herr Hb4 Husz Hw Hpl Hcok Hpr Hast Ho. unfold lz_tail.
+    destruct (take_n_cases (Z.to_nat csize) in4) as [(Hshort & Ht) | (Hlong & Ht)]; rewrite Ht in Ho.
+    - destruct (rdec_prepare_short in4 csize Hshort) as (e & He). rewrite He. cbn [obind]. exact Ho.
+    - remember (firstn (Z.to_nat csize) in4) as payload eqn:Epay.
+      remember (skipn (Z.to_nat csize) in4) as rest eqn:Erest.
+      assert (Hin4 : in4 = payload ++ rest) by (subst payload rest; symmetry; apply firstn_skipn).
+      assert (Hlp : length payload = Z.to_nat csize) by (subst payload; apply firstn_length_le; exact Hlong).
+      assert (Hbr : bytes_ok rest = true) by (subst rest; apply b_skipn; exact Hb4).
+      pose proof (rdec_prepare_exact payload rest csize Hlp) as HE. rewrite Hast in Ho.
+      rewrite Hin4.
+      destruct (rdec_prepare payload csize) as [[rc r]|e|e|]; try contradiction.
+      + destruct HE as (-> & Hrng & HE). rewrite HE. cbn [obind].
+        split; [unfold live; msimpl; auto|].
+        exists usize, cd, hist1. msimpl.
+        split; [exact Husz|]. split; [reflexivity|]. split; [reflexivity|]. split; [reflexivity|]. split; [reflexivity|].
+        split; [reflexivity|]. split; [exact Hw|]. split; [exact Hcok|]. split; [rewrite Hpl; intros X; lia|].
+        split; [exact Hrng|]. split; [exact Hpr|].
+        rewrite Hpl. rewrite (alz_pd ds hist1 cd rc t usize 0 (w_pending_dist w1) 0) by (intros X; lia). exact Ho.
+      + rewrite HE. cbn [obind]. exact Ho.
+  Qed.
+
+  Lemma hdr_lz st s d c in1 w1 np1 hist1 :
+    m_end_reached s = false -> m_error s = None -> bytes_ok in1 = true -> 0 <= c < 256 ->
+    (c =? 0) = false -> (128 <=? c) = true ->
+    (negb ((224 <=? c) || (c =? 1)) && d_need_dict_reset d) = false ->
+    hist1 = (if (224 <=? c) || (c =? 1) then [] else d_hist d) ->
+    np1 = (if (224 <=? c) || (c =? 1) then true else d_need_props d) ->
+    win_ok st w1 hist1 -> w_pending_len w1 = 0 ->
+    (np1 = false -> m_coder s = d_coder d /\ m_probs s = d_probs d /\ probs_ok (d_probs d) /\
+                    exists c0, d_coder d = Some c0 /\ coder_ok c0 (w_full w1)) ->
+    match lz_part s c in1 w1 np1 false with
+    | Ok s1 => live s1 /\ in_lzma st s1 (adecode ds d (c :: in1))
+    | _ => adecode ds d (c :: in1) = None
+    end.
+  Proof.
+    intros Hend Herr Hb1 Hc H0 H128 Hr Hh1 Hn1 Hw Hpl Hco.
+    unfold lz_part.
+    destruct in1 as [|u1 [|u2 [|c1 [|c2 in3]]]]; cbn [read_u16_be obind];
+      try (apply adecode_short_lzma; [assumption | assumption | cbn [length]; lia]).
+    apply bytes_ok_cons in Hb1 as (Hu1 & Hb1). apply bytes_ok_cons in Hb1 as (Hu2 & Hb1).
+    apply bytes_ok_cons in Hb1 as (Hc1 & Hb1). apply bytes_ok_cons in Hb1 as (Hc2 & Hb3).
+    cbv zeta.
+    set (usize := Z.shiftl (Z.land c 31) 16 + (u1 * 256 + u2) + 1).
+    set (csize := c1 * 256 + c2 + 1).
+    assert (Husz : 0 < usize).
+    { unfold usize. change 31 with (Z.ones 5). rewrite Z.land_ones by lia. rewrite Z.shiftl_mul_pow2 by lia.
+      change (2 ^ 5) with 32. change (2 ^ 16) with 65536. lia. }
+    rewrite (adecode_lzma ds d c u1 u2 c1 c2 in3 H0 H128). fold csize.
+    destruct (192 <=? c) eqn:E192.
+    - destruct in3 as [|pr in4]; [reflexivity|].
+      apply bytes_ok_cons in Hb3 as (Hpr & Hb4).
+      unfold lzma2_decode_props at 1. cbn [read_u8 obind].
+      destruct (224 <? pr) eqn:Epr.
+      { cbn [obind]. destruct (take_n (Z.to_nat csize) in4) as [[payload rest]|]; [|reflexivity].
+        cbn [app]. rewrite astep_lzma by exact H128. rewrite Hr, E192.
+        unfold lzma2_decode_props. cbn [read_u8 obind]. rewrite Epr. reflexivity. }
+      cbv zeta.
+      destruct (4 <? pr - pr / 45 * 45 - (pr - pr / 45 * 45) / 9 * 9 + (pr - pr / 45 * 45) / 9) eqn:Elclp.
+      { cbn [obind]. destruct (take_n (Z.to_nat csize) in4) as [[payload rest]|]; [|reflexivity].
+        cbn [app]. rewrite astep_lzma by exact H128. rewrite Hr, E192.
+        unfold lzma2_decode_props. cbn [read_u8 obind]. rewrite Epr. cbv zeta. rewrite Elclp. reflexivity. }
+      cbn [obind].
+      apply Z.ltb_ge in Epr, Elclp.
+      apply (hdr_lz_tail st s d c [c; u1; u2; c1; c2; pr] _ PLeaf in4 w1 hist1 usize csize); try assumption.
+      + apply coder_new_ok; lia.
+      + apply probs_ok_empty.
+      + intros payload. cbn [app]. rewrite astep_lzma by exact H128. rewrite Hr, E192.
+        unfold lzma2_decode_props. cbn [read_u8 obind].
+        destruct (Z.ltb_spec 224 pr) as [X|_]; [lia|]. cbv zeta.
+        destruct (Z.ltb_spec 4 (pr - pr / 45 * 45 - (pr - pr / 45 * 45) / 9 * 9 + (pr - pr / 45 * 45) / 9)) as [X|_]; [lia|].
+        rewrite <- Hh1. reflexivity.
+      + reflexivity.
+    - destruct np1 eqn:Enp.
+      + cbn [obind]. destruct (take_n (Z.to_nat csize) in3) as [[payload rest]|]; [|reflexivity].
+        cbn [app]. rewrite astep_lzma by exact H128. rewrite Hr, E192, <- Hn1. reflexivity.
+      + destruct (Hco eq_refl) as (Hc1' & Hp1 & Hpok & c0 & Hc0 & Hcok0).
+        rewrite Hc1', Hc0, Hp1.
+        destruct (160 <=? c) eqn:E160; cbn [obind].
+        * apply (hdr_lz_tail st s d c [c; u1; u2; c1; c2] _ PLeaf in3 w1 hist1 usize csize); try assumption.
+          -- unfold coder_reset. destruct Hcok0 as ((A1 & A2 & A3) & _). apply coder_new_ok; assumption.
+          -- apply probs_ok_empty.
+          -- intros payload. cbn [app]. rewrite astep_lzma by exact H128. rewrite Hr, E192, <- Hn1, Hc0, E160, <- Hh1. reflexivity.
+          -- reflexivity.
+        * apply (hdr_lz_tail st s d c [c; u1; u2; c1; c2] _ (d_probs d) in3 w1 hist1 usize csize); try assumption.
+          -- intros payload. cbn [app]. rewrite astep_lzma by exact H128. rewrite Hr, E192, <- Hn1, Hc0, E160, <- Hh1. reflexivity.
+          -- reflexivity.
+  Qed.
+
+  Lemma hdr_unc st s d c in1 w1 np1 hist1 :
+    m_end_reached s = false -> m_error s = None -> bytes_ok in1 = true ->
+    (c =? 0) = false -> (128 <=? c) = false -> ((c =? 1) || (c =? 2)) = true ->
+    (negb ((224 <=? c) || (c =? 1)) && d_need_dict_reset d) = false ->
+    hist1 = (if (224 <=? c) || (c =? 1) then [] else d_hist d) ->
+    np1 = (if (224 <=? c) || (c =? 1) then true else d_need_props d) ->
+    win_ok st w1 hist1 -> w_pending_len w1 = 0 -> rdec_is_finished (m_rc s) = true ->
+    (np1 = false -> m_coder s = d_coder d /\ m_probs s = d_probs d /\ probs_ok (d_probs d) /\
+                    exists c0, d_coder d = Some c0 /\ coder_ok c0 (w_full w1)) ->
+    match unc_part s in1 w1 np1 false with
+    | Ok s1 => live s1 /\ in_unc st s1 (adecode ds d (c :: in1))
+    | _ => adecode ds d (c :: in1) = None
+    end.
+  Proof.
+    intros Hend Herr Hb1 H0 H128 H12 Hr Hh1 Hn1 Hw Hpl Hfin Hco.
+    unfold unc_part.
+    destruct in1 as [|s0 [|s1 in2]]; cbn [read_u16_be obind];
+      try (apply adecode_short_unc; [assumption | assumption | cbn [length]; lia]).
+    apply bytes_ok_cons in Hb1 as (Hs0 & Hb1). apply bytes_ok_cons in Hb1 as (Hs1 & Hb2).
+    set (n := s0 * 256 + s1 + 1). assert (Hn : 0 < n) by (unfold n; lia).
+    split; [unfold live; msimpl; auto|].
+    exists n, hist1, (d_coder d), (d_probs d), np1. msimpl.
+    split; [exact Hn|]. split; [reflexivity|]. split; [reflexivity|]. split; [exact Hfin|]. split; [exact Hw|].
+    split; [exact Hpl|]. split; [reflexivity|].
+    split; [split; [reflexivity | exact Hco]|].
+    rewrite (adecode_unc ds d c s0 s1 in2 H0 H128 H12). fold n.
+    destruct (take_n_cases (Z.to_nat n) in2) as [(Hshort & Ht) | (Hlong & Ht)]; rewrite Ht.
+    - destruct (Z.ltb_spec (zlen in2) n) as [_|X]; [reflexivity | unfold zlen in X; lia].
+    - destruct (Z.ltb_spec (zlen in2) n) as [X|_]; [unfold zlen in X; lia|].
+      unfold astep. cbn [c_bytes c_ctrl]. rewrite Z.eqb_refl, Hr, H128, H12. cbn [negb].
+      fold n. rewrite (zlen_firstn _ _ Hlong).
+      destruct (Z.eqb_spec (Z.of_nat (Z.to_nat n)) n) as [_|X]; [|lia].
+      unfold d_after_unc. rewrite <- Hh1, <- Hn1. reflexivity.
+  Qed.
+
+  (* a chunk that does not reset the dictionary while the reader demands it *)
+  Lemma adecode_ndr d c in1 : (c =? 0) = false -> ((224 <=? c) || (c =? 1)) = false ->
+    d_need_dict_reset d = true -> adecode ds d (c :: in1) = None.
+  Proof.
+    intros H0 Hr Hd.
+    destruct (128 <=? c) eqn:E128.
+    - destruct in1 as [|u1 [|u2 [|c1 [|c2 in3]]]];
+        try (apply adecode_short_lzma; [assumption | assumption | cbn [length]; lia]).
+      rewrite (adecode_lzma ds d c u1 u2 c1 c2 in3 H0 E128).
+      destruct (if 192 <=? c then match in3 with [] => None | pr :: in4 => Some ([pr], in4) end else Some ([], in3))
+        as [[prl in4]|]; [|reflexivity].
+      destruct (take_n _ in4) as [[payload rest]|]; [|reflexivity].
+      rewrite astep_lzma by exact E128. rewrite Hr, Hd. reflexivity.
+    - destruct ((c =? 1) || (c =? 2)) eqn:E12; [|apply adecode_bad_ctrl; assumption].
+      destruct in1 as [|s0 [|s1 in2]]; try (apply adecode_short_unc; [assumption | assumption | cbn [length]; lia]).
+      rewrite (adecode_unc ds d c s0 s1 in2 H0 E128 E12).
+      destruct (take_n _ in2) as [[payload rest]|]; [|reflexivity].
+      unfold astep. cbn [c_bytes c_ctrl]. rewrite Z.eqb_refl, Hr, Hd. reflexivity.
+  Qed.
+
+  Lemma header_sim st s d : live s -> at_boundary st s d ->
+    match lzma2_chunk_header s with
+    | Ok s1 =>
+        (m_end_reached s1 = true /\ m_error s1 = None /\ adecode ds d (m_in s) = Some ([], m_in s1)) \/
+        (m_end_reached s1 = false /\ live s1 /\
+         (in_unc st s1 (adecode ds d (m_in s)) \/ in_lzma st s1 (adecode ds d (m_in s))))
+    | _ => adecode ds d (m_in s) = None
+    end.
+  Proof.
+    intros (Hend & Herr & Hbytes) (Hus & Hfin & (R & Hsz & Hst & Hps) & Hpl & Hndr & (Hnp & Hcoder)).
+    rewrite chunk_header_eq.
+    destruct (m_in s) as [|c in1] eqn:Ein; cbn [read_u8 obind]; [apply adecode_nil|].
+    apply bytes_ok_cons in Hbytes as (Hc & Hb1).
+    destruct (Z.eqb_spec c 0) as [Hc0|Hc0].
+    { subst c. left. msimpl. split; [reflexivity|]. split; [exact Herr | apply adecode_term]. }
+    assert (H0 : (c =? 0) = false) by (apply Z.eqb_neq; exact Hc0).
+    pose proof R as [[Hs0 Hs16] _ _ _ _ _ _ Hpe].
+    destruct (reset_rel (m_win s) Hs0 Hs16 Hpe) as (wr & Hreset & Rr & Hszr & Hstr & Hpor & Hfur & Hplr & _).
+    unfold win_part.
+    destruct ((224 <=? c) || (c =? 1)) eqn:Er.
+    - rewrite Hreset. cbn [obind].
+      assert (Hwr : win_ok st wr []) by (split; [exact Rr|]; split; [lia|]; split; [lia|]; intros _; lia).
+      destruct (128 <=? c) eqn:E128.
+      + pose proof (hdr_lz st s d c in1 wr true [] Hend Herr Hb1 Hc H0 E128
+                      ltac:(rewrite Er; reflexivity) ltac:(rewrite Er; reflexivity) ltac:(rewrite Er; reflexivity)
+                      Hwr ltac:(lia) ltac:(intros X; discriminate X)) as HL.
+        destruct (lz_part s c in1 wr true false) as [s1|e|e|]; try exact HL.
+        destruct HL as (Hl1 & Hi1). right. split; [apply Hl1|]. split; [exact Hl1|]. right. exact Hi1.
+      + assert (Hc1 : c = 1).
+        { apply orb_true_iff in Er as [X|X]; [apply Z.leb_le in X; apply Z.leb_gt in E128; lia | apply Z.eqb_eq in X; exact X]. }
+        subst c. change (2 <? 1) with false. cbv iota.
+        pose proof (hdr_unc st s d 1 in1 wr true [] Hend Herr Hb1 H0 E128 eq_refl
+                      eq_refl eq_refl eq_refl Hwr ltac:(lia) Hfin ltac:(intros X; discriminate X)) as HL.
+        destruct (unc_part s in1 wr true false) as [s1|e|e|]; try exact HL.
+        destruct HL as (Hl1 & Hi1). right. split; [apply Hl1|]. split; [exact Hl1|]. left. exact Hi1.
+    - destruct (m_need_dict_reset s) eqn:Endr.
+      { cbn [obind]. apply adecode_ndr; [exact H0 | exact Er | symmetry; exact Hndr]. }
+      cbn [obind].
+      assert (Hw : win_ok st (m_win s) (d_hist d)) by (split; [exact R|]; split; [exact Hsz|]; split; assumption).
+      assert (Hr : (negb ((224 <=? c) || (c =? 1)) && d_need_dict_reset d) = false) by (rewrite <- Hndr; apply andb_false_r).
+      destruct (128 <=? c) eqn:E128.
+      + pose proof (hdr_lz st s d c in1 (m_win s) (m_need_props s) (d_hist d) Hend Herr Hb1 Hc H0 E128 Hr
+                      ltac:(rewrite Er; reflexivity) ltac:(rewrite Er; exact Hnp) Hw Hpl
+                      ltac:(intros X; apply Hcoder; rewrite <- Hnp; exact X)) as HL.
+        destruct (lz_part s c in1 (m_win s) (m_need_props s) false) as [s1|e|e|]; try exact HL.
+        destruct HL as (Hl1 & Hi1). right. split; [apply Hl1|]. split; [exact Hl1|]. right. exact Hi1.
+      + destruct (2 <? c) eqn:E2.
+        { apply adecode_bad_ctrl; [exact H0 | exact E128|].
+          apply Z.ltb_lt in E2. apply orb_false_iff. split; apply Z.eqb_neq; lia. }
+        assert (H12 : ((c =? 1) || (c =? 2)) = true).
+        { apply Z.ltb_ge in E2. apply orb_true_iff. destruct (Z.eq_dec c 1); [left | right]; apply Z.eqb_eq; lia. }
+        pose proof (hdr_unc st s d c in1 (m_win s) (m_need_props s) (d_hist d) Hend Herr Hb1 H0 E128 H12 Hr
+                      ltac:(rewrite Er; reflexivity) ltac:(rewrite Er; exact Hnp) Hw Hpl Hfin
+                      ltac:(intros X; apply Hcoder; rewrite <- Hnp; exact X)) as HL.
+        destruct (unc_part s in1 (m_win s) (m_need_props s) false) as [s1|e|e|]; try exact HL.
+        destruct HL as (Hl1 & Hi1). right. split; [apply Hl1|]. split; [exact Hl1|]. left. exact Hi1.
   Qed.
 
 End Sim.
